@@ -116,23 +116,64 @@ theorem spec_is_elementwise (I : Item T M A) (L : Lawful I) (x : T) (xs : List T
 
 /-! ## lawfulness of the items that exist -/
 
-theorem min_lawful : Lawful minItem := minItem_lawful
-theorem max_lawful : Lawful maxItem := maxItem_lawful
+/-! The built-in items at **every** integer element type `ty` (the type only fixes `Default`, i.e. `<T as MinMax>::MAX` /
+`MIN`; values are mathematical integers, machine overflow is outside the domain — see `guarded_lawful`). -/
+theorem min_lawful (ty : IntTy) : Lawful (minItem ty) := minItem_lawful ty
+theorem max_lawful (ty : IntTy) : Lawful (maxItem ty) := maxItem_lawful ty
 theorem sum_lawful : Lawful sumItem := sumItem_lawful
-theorem minAdd_lawful : Lawful minAddItem := minAddItem_lawful
-theorem maxAdd_lawful : Lawful maxAddItem := maxAddItem_lawful
+theorem minAdd_lawful (ty : IntTy) : Lawful (minAddItem ty) := minAddItem_lawful ty
+theorem maxAdd_lawful (ty : IntTy) : Lawful (maxAddItem ty) := maxAddItem_lawful ty
 theorem sumAdd_lawful : Lawful sumAddItem := sumAddItem_lawful
+
+/-- An item run together with the overflow flag (`guardItem`, what the driver executes for the narrow / unsigned element
+    types) is lawful whenever the item is — so every theorem of this file and of C02 applies to the guarded run — and the
+    guard changes nothing: every operation projects to the item's own operation, the observable algebra is the item's. -/
+theorem guarded_lawful (I : Item T M A) (L : Lawful I) (G : Guard T M) :
+    Lawful (guardItem I G) ∧
+    (∀ l r, ((guardItem I G).merge l r).1 = I.merge l.1 r.1) ∧
+    (∀ p l r, ((guardItem I G).update p l r).1 = I.update p.1 l.1 r.1) ∧
+    (∀ x m, ((guardItem I G).modify x m).1 = I.modify x.1 m) ∧
+    (∀ p l r, (((guardItem I G).push p l r).1.1, ((guardItem I G).push p l r).2.1.1, ((guardItem I G).push p l r).2.2.1) =
+      I.push p.1 l.1 r.1) ∧
+    ((guardItem I G).dflt.1 = I.dflt) ∧ (∀ x, (guardItem I G).val x = I.val x.1) ∧ (guardItem I G).op = I.op ∧
+    (guardItem I G).act = I.act :=
+  ⟨guardItem_lawful L G, fun _ _ => rfl, fun _ _ _ => rfl, fun _ _ => rfl, fun _ _ _ => rfl, rfl, fun _ => rfl, rfl, rfl⟩
+
+/-- The specification the driver prints for a guarded item (plain list of `(item, flag)` pairs) **is** the specification of
+    the item itself on the first components: `ask`, range modification and the aggregates `[l, k]` / `[k, r]` the boundary
+    searches are specified with do not depend on the flags.  Together with `guarded_lawful` + `history_refines`: the guarded
+    model run answers exactly what the plain list of the *unguarded* item answers. -/
+theorem guarded_spec_is_item_spec (I : Item T M A) (G : Guard T M) (zs : List (T × Bool)) (l r : Nat) (m : M) :
+    Spec.ask (guardItem I G) zs l r = Spec.ask I (zs.map Prod.fst) l r ∧
+    (match Spec.modify (guardItem I G) zs l r m with
+     | .ok zs' => Except.ok (zs'.map Prod.fst)
+     | .error e => .error e) = Spec.modify I (zs.map Prod.fst) l r m ∧
+    (Spec.aggFwd (guardItem I G) zs l r).1 = Spec.aggFwd I (zs.map Prod.fst) l r ∧
+    (Spec.aggBwd (guardItem I G) zs l r).1 = Spec.aggBwd I (zs.map Prod.fst) l r :=
+  ⟨guard_spec_ask I G zs l r, guard_spec_modify I G zs l r m, (guard_spec_agg I G zs l r).1, (guard_spec_agg I G zs l r).2⟩
+
+/-- the flag is sticky and conjunctive: a value computed from a flagged (`false`) operand, or by a call the guard rejects,
+    is flagged — so one overflow anywhere on the way to a node stays visible in the tree and in every answer built from it -/
+theorem guard_flag_sticky (I : Item T M A) (G : Guard T M) :
+    (∀ l r, ((guardItem I G).merge l r).2 = (l.2 && r.2 && G.okMerge l.1 r.1)) ∧
+    (∀ p l r, ((guardItem I G).update p l r).2 = (p.2 && l.2 && r.2 && G.okMerge l.1 r.1)) ∧
+    (∀ x m, ((guardItem I G).modify x m).2 = (x.2 && G.okModify x.1 m)) ∧
+    (∀ p l r, ((guardItem I G).push p l r).1.2 = (p.2 && G.okPush p.1 l.1 r.1) ∧
+      ((guardItem I G).push p l r).2.1.2 = (l.2 && (p.2 && G.okPush p.1 l.1 r.1)) ∧
+      ((guardItem I G).push p l r).2.2.2 = (r.2 && (p.2 && G.okPush p.1 l.1 r.1))) :=
+  ⟨fun _ _ => rfl, fun _ _ _ => rfl, fun _ _ => rfl, fun _ _ _ => ⟨rfl, rfl, rfl⟩⟩
 
 /-- `Combinator<U, V>` of two lawful items is lawful — hence, by structural recursion, every nesting. -/
 theorem combinator_lawful {U B : Type} {I : Item T M A} {J : Item U M B} (LI : Lawful I) (LJ : Lawful J) :
     Lawful (prodItem I J) := prodItem_lawful LI LJ
 
-/-- the nestings the harness runs (the last one has two non-commutative components) -/
-theorem harness_combinators_lawful :
-    Lawful (prodItem minAddItem maxAddItem) ∧ Lawful (prodItem (prodItem sumAddItem minAddItem) maxAddItem) ∧
+/-- the nestings the harness runs, at every element type (the last one has two non-commutative components) -/
+theorem harness_combinators_lawful (ty : IntTy) :
+    Lawful (prodItem (minAddItem ty) (maxAddItem ty)) ∧
+    Lawful (prodItem (prodItem sumAddItem (minAddItem ty)) (maxAddItem ty)) ∧
     Lawful (prodItem affHashItem affHashItem) :=
-  ⟨prodItem_lawful minAddItem_lawful maxAddItem_lawful,
-   prodItem_lawful (prodItem_lawful sumAddItem_lawful minAddItem_lawful) maxAddItem_lawful,
+  ⟨prodItem_lawful (minAddItem_lawful ty) (maxAddItem_lawful ty),
+   prodItem_lawful (prodItem_lawful sumAddItem_lawful (minAddItem_lawful ty)) (maxAddItem_lawful ty),
    prodItem_lawful affHashItem_lawful affHashItem_lawful⟩
 
 /-- the harness's non-commutative item with non-commuting (affine) modifiers -/
@@ -200,19 +241,19 @@ example : ¬ Lawful { prodItem affHashItem affHashItem with
   revert this; decide
 
 /-- product and components side by side on a concrete history -/
-example : ∃ s s1 s2, Seg.fromSlice (prodItem minAddItem maxAddItem) [(⟨3, 0⟩, ⟨3, 0⟩), (⟨1, 0⟩, ⟨1, 0⟩), (⟨4, 0⟩, ⟨4, 0⟩)] = .ok s ∧
-    Seg.fromSlice minAddItem [⟨3, 0⟩, ⟨1, 0⟩, ⟨4, 0⟩] = .ok s1 ∧ Seg.fromSlice maxAddItem [⟨3, 0⟩, ⟨1, 0⟩, ⟨4, 0⟩] = .ok s2 ∧
-    s.run (prodItem minAddItem maxAddItem) [.modify 0 1 10, .ask 0 2, .ask 5 1] =
-      Ans.pairs (s1.run minAddItem [.modify 0 1 10, .ask 0 2, .ask 5 1]) (s2.run maxAddItem [.modify 0 1 10, .ask 0 2, .ask 5 1]) :=
-  prod_runs_side_by_side_from_slice minAddItem maxAddItem minAdd_lawful maxAdd_lawful _ (by simp)
+example : ∃ s s1 s2, Seg.fromSlice (prodItem (minAddItem .i64) (maxAddItem .i64)) [(⟨3, 0⟩, ⟨3, 0⟩), (⟨1, 0⟩, ⟨1, 0⟩), (⟨4, 0⟩, ⟨4, 0⟩)] = .ok s ∧
+    Seg.fromSlice (minAddItem .i64) [⟨3, 0⟩, ⟨1, 0⟩, ⟨4, 0⟩] = .ok s1 ∧ Seg.fromSlice (maxAddItem .i64) [⟨3, 0⟩, ⟨1, 0⟩, ⟨4, 0⟩] = .ok s2 ∧
+    s.run (prodItem (minAddItem .i64) (maxAddItem .i64)) [.modify 0 1 10, .ask 0 2, .ask 5 1] =
+      Ans.pairs (s1.run (minAddItem .i64) [.modify 0 1 10, .ask 0 2, .ask 5 1]) (s2.run (maxAddItem .i64) [.modify 0 1 10, .ask 0 2, .ask 5 1]) :=
+  prod_runs_side_by_side_from_slice (minAddItem .i64) (maxAddItem .i64) (minAdd_lawful .i64) (maxAdd_lawful .i64) _ (by simp)
     [.modify 0 1 10, .ask 0 2, .ask 5 1] (by decide)
 
 /-- a 5-element `MinAdd` tree after two overlapping modifications (hypotheses of `history_refines_from_slice`
     are satisfiable, the conclusion is not trivial) -/
-example : ∃ s, Seg.fromSlice minAddItem [⟨3, 0⟩, ⟨1, 0⟩, ⟨4, 0⟩, ⟨1, 0⟩, ⟨5, 0⟩] = .ok s ∧
-    s.run minAddItem [.modify 0 3 10, .modify 2 4 (-7), .ask 1 3, .set 3 ⟨100, 0⟩, .ask 0 4, .ask 3 1, .dbg] =
+example : ∃ s, Seg.fromSlice (minAddItem .i64) [⟨3, 0⟩, ⟨1, 0⟩, ⟨4, 0⟩, ⟨1, 0⟩, ⟨5, 0⟩] = .ok s ∧
+    s.run (minAddItem .i64) [.modify 0 3 10, .modify 2 4 (-7), .ask 1 3, .set 3 ⟨100, 0⟩, .ask 0 4, .ask 3 1, .dbg] =
       [.done, .done, .val 4, .done, .val (-2), .panic .assert, .vals [13, 11, 7, 100, -2]] := by
-  obtain ⟨s, e, h⟩ := history_refines_from_slice minAddItem minAdd_lawful
+  obtain ⟨s, e, h⟩ := history_refines_from_slice (minAddItem .i64) (minAdd_lawful .i64)
     [⟨3, 0⟩, ⟨1, 0⟩, ⟨4, 0⟩, ⟨1, 0⟩, ⟨5, 0⟩] (by simp)
     [.modify 0 3 10, .modify 2 4 (-7), .ask 1 3, .set 3 ⟨100, 0⟩, .ask 0 4, .ask 3 1, .dbg]
     (by simp [OpsOK, OpOK])
@@ -236,25 +277,45 @@ example : ∃ s, Seg.fromSlice flipZItem [⟨1, 1, false⟩, ⟨0, 1, false⟩, 
   exact ⟨s, e, by rw [h]; decide⟩
 
 /-- `new` on a size that is not a power of two, product item -/
-example : ∃ s, Seg.new (prodItem minAddItem maxAddItem) 3 (⟨2, 0⟩, ⟨2, 0⟩) = .ok s ∧
-    s.run (prodItem minAddItem maxAddItem) [.modify 1 2 5, .ask 0 2] = [.done, .val (2, 7)] := by
-  obtain ⟨s, e, h⟩ := history_refines_new (prodItem minAddItem maxAddItem) harness_combinators_lawful.1 3
+example : ∃ s, Seg.new (prodItem (minAddItem .i64) (maxAddItem .i64)) 3 (⟨2, 0⟩, ⟨2, 0⟩) = .ok s ∧
+    s.run (prodItem (minAddItem .i64) (maxAddItem .i64)) [.modify 1 2 5, .ask 0 2] = [.done, .val (2, 7)] := by
+  obtain ⟨s, e, h⟩ := history_refines_new (prodItem (minAddItem .i64) (maxAddItem .i64)) (harness_combinators_lawful .i64).1 3
     (⟨2, 0⟩, ⟨2, 0⟩) (by omega) [.modify 1 2 5, .ask 0 2] (by simp [OpsOK, OpOK])
   exact ⟨s, e, by rw [h]; decide⟩
 
 /-- the tree-level lemmas apply to a concrete lazily modified tree: `build_spec_from_slice` provides `WF`/`Shaped`,
     `modify_spec` keeps them, `ask_spec`/`set_spec` then apply (here: existence of such a tree with a pending tag). -/
-example : ∃ t : Tree MinAdd, WF minAddItem t ∧ Shaped t 0 4 ∧ den minAddItem t = [13, 11, 14, 11, 5] ∧
+example : ∃ t : Tree MinAdd, WF (minAddItem .i64) t ∧ Shaped t 0 4 ∧ den (minAddItem .i64) t = [13, 11, 14, 11, 5] ∧
     (∀ l r, l ≤ r → r ≤ 4 →
-      some (minAddItem.val (ask minAddItem t l r 0 4).1) = foldO minAddItem (slice [13, 11, 14, 11, 5] l (r + 1))) := by
-  obtain ⟨s, _, _, w, sh, d⟩ := build_spec_from_slice minAddItem minAdd_lawful
+      some ((minAddItem .i64).val (ask (minAddItem .i64) t l r 0 4).1) = foldO (minAddItem .i64) (slice [13, 11, 14, 11, 5] l (r + 1))) := by
+  obtain ⟨s, _, _, w, sh, d⟩ := build_spec_from_slice (minAddItem .i64) (minAdd_lawful .i64)
     [⟨3, 0⟩, ⟨1, 0⟩, ⟨4, 0⟩, ⟨1, 0⟩, ⟨5, 0⟩] (by simp)
-  obtain ⟨d', w', sh'⟩ := modify_spec minAddItem minAdd_lawful 10 s.t 0 3 0 4 w sh (by omega) (by omega) (by omega)
+  obtain ⟨d', w', sh'⟩ := modify_spec (minAddItem .i64) (minAdd_lawful .i64) 10 s.t 0 3 0 4 w sh (by omega) (by omega) (by omega)
   refine ⟨_, w', sh', ?_, ?_⟩
   · rw [d', d]; decide
   · intro l r h1 h2
-    have := (ask_spec minAddItem minAdd_lawful _ l r 0 4 w' sh' (by omega) h1 h2).1
+    have := (ask_spec (minAddItem .i64) (minAdd_lawful .i64) _ l r 0 4 w' sh' (by omega) h1 h2).1
     rw [this, d', d]; rfl
+
+/-- the guard at a narrow unsigned type: `MaxAdd<u8>` elements equal to `u8::MIN = 0` receive a range add like every
+    other element and stay inside the domain (flag `true`); an add that leaves `u8` is flagged, and the flag survives a
+    later `update` of the node (sticky) -/
+example : (guardItem (maxAddItem ⟨false, 8⟩) (maxAddGuard ⟨false, 8⟩)).modify (⟨0, 0⟩, true) 5 = (⟨5, 5⟩, true) ∧
+    (guardItem (maxAddItem ⟨false, 8⟩) (maxAddGuard ⟨false, 8⟩)).modify (⟨250, 0⟩, true) 6 = (⟨256, 6⟩, false) ∧
+    ((guardItem (maxAddItem ⟨false, 8⟩) (maxAddGuard ⟨false, 8⟩)).update (⟨256, 6⟩, false) (⟨1, 0⟩, true) (⟨2, 0⟩, true)).2 = false ∧
+    ((guardItem sumAddItem (sumAddGuard ⟨true, 8⟩)).modify (⟨-100, 13, 0⟩, true) 10).2 = false := by decide
+
+/-- a guarded history at `u8` (what the driver runs for `maxadd:u8`): zeros under `MaxAdd` move with the range add -/
+example : ∃ s, Seg.new (guardItem (maxAddItem ⟨false, 8⟩) (maxAddGuard ⟨false, 8⟩)) 3 (⟨0, 0⟩, true) = .ok s ∧
+    s.run (guardItem (maxAddItem ⟨false, 8⟩) (maxAddGuard ⟨false, 8⟩)) [.modify 0 1 5, .ask 0 2, .ask 2 2, .dbg] =
+      [.done, .val 5, .val 0, .vals [5, 5, 0]] := by
+  obtain ⟨s, e, h⟩ := history_refines_new _ (guarded_lawful _ (maxAdd_lawful ⟨false, 8⟩) (maxAddGuard ⟨false, 8⟩)).1 3
+    (⟨0, 0⟩, true) (by omega) [.modify 0 1 5, .ask 0 2, .ask 2 2, .dbg] (by simp [OpsOK, OpOK])
+  exact ⟨s, e, by rw [h]; decide⟩
+
+/-- `guarded_spec_is_item_spec` on a concrete list: the flags (here one `false`) do not show in the specification -/
+example : Spec.ask (guardItem sumAddItem (sumAddGuard ⟨false, 8⟩)) [(⟨3, 1, 0⟩, true), (⟨200, 1, 0⟩, false), (⟨7, 1, 0⟩, true)] 0 2 =
+    .ok (210, 3) ∧ Spec.ask sumAddItem [⟨3, 1, 0⟩, ⟨200, 1, 0⟩, ⟨7, 1, 0⟩] 0 2 = .ok (210, 3) := by decide
 
 end examples
 
